@@ -46,6 +46,12 @@ pub enum COp {
     /// a fresh container instance (new simulated hash seed) with the same members
     Rebuild { hash_seed: u64, order_seed: u64 },
     Edge(Op),
+    /// an edge between the distinct node object `dup j` and the original with the same key (only
+    /// while that original has no other edge: neighbours are found by key, so anything more
+    /// would be ambiguous in the library itself)
+    TwinConnect { j: usize, to_original: bool, e: u64 },
+    /// isolate() on one end of that edge
+    TwinIsolate { j: usize, on_dup: bool },
 }
 
 #[derive(Clone, Debug, Serialize, Deserialize)]
@@ -79,6 +85,9 @@ struct St<F: Flavour> {
     /// key -> oid of the member
     members: BTreeMap<usize, usize>,
     model: Model,
+    /// dup index -> (edge goes dup -> original, value)
+    twin: BTreeMap<usize, (bool, u64)>,
+    dup_keys: Vec<usize>,
 }
 
 impl<F: Flavour> St<F> {
@@ -95,10 +104,44 @@ impl<F: Flavour> St<F> {
     fn g(&self) -> &F::Graph {
         self.world.graph.as_ref().unwrap()
     }
+    /// keys whose original currently carries a twin edge
+    fn twin_keys(&self) -> Vec<usize> {
+        self.twin.keys().map(|j| self.dup_keys[*j]).collect()
+    }
+    /// (has_in, has_out, statements) contributed by a twin edge to the member `oid` of key `k`
+    fn twin_part(&self, k: usize, oid: usize) -> (bool, bool, Vec<(usize, usize, u64)>) {
+        let mut r = (false, false, Vec::new());
+        for (j, (dup_to_orig, e)) in &self.twin {
+            if self.dup_keys[*j] != k {
+                continue;
+            }
+            let member_is_dup = oid == self.n() + *j;
+            let member_is_orig = oid == k;
+            if !member_is_dup && !member_is_orig {
+                continue;
+            }
+            // is the member the source of the edge?
+            let source = member_is_dup == *dup_to_orig;
+            if F::DIRECTED {
+                if source {
+                    r.1 = true;
+                    r.2.push((k, k, *e));
+                } else {
+                    r.0 = true;
+                }
+            } else {
+                r.0 = true;
+                r.1 = true;
+                r.2.push((k, k, *e));
+            }
+        }
+        r
+    }
     /// expected (u, v, value) statements from iterating the members with `for e in &node`
     fn expected_edges(&self) -> Vec<(usize, usize, u64)> {
         let mut out = Vec::new();
         for (k, oid) in &self.members {
+            out.extend(self.twin_part(*k, *oid).2);
             if *oid >= self.n() {
                 continue;
             }
@@ -129,6 +172,8 @@ impl<F: Flavour> St<F> {
                 let a = !self.model.adj(*k).is_empty();
                 (a, a)
             };
+            let tp = self.twin_part(*k, *oid);
+            let (has_in, has_out) = (has_in || tp.0, has_out || tp.1);
             let take = match which {
                 "roots" => !has_in,
                 "leaves" => !has_out,
@@ -184,7 +229,7 @@ fn step<F: Flavour>(st: &mut St<F>, op: &COp, stats: &mut Stats) -> Result<(), (
             if got != want {
                 return fail("map:insert", format!("after insert of key {key} the member has value id {got:?}, expected {want:?} (the first inserted node must be kept)"));
             }
-            if let Err(m) = st.world.compare_with(&st.model) {
+            if let Err(m) = st.world.compare_with_skipping(&st.model, &st.twin_keys()) {
                 return fail("map:insert", format!("insert of key {key} changed the edges: {m}"));
             }
         }
@@ -209,7 +254,7 @@ fn step<F: Flavour>(st: &mut St<F>, op: &COp, stats: &mut Stats) -> Result<(), (
                 return fail("map:remove", format!("remove({k}) returned node value id {r:?}, map model says {want:?}"));
             }
             // removing a member changes membership only: its edges are untouched
-            if let Err(m) = st.world.compare_with(&st.model) {
+            if let Err(m) = st.world.compare_with_skipping(&st.model, &st.twin_keys()) {
                 return fail("map:remove", format!("remove({k}) changed the edges: {m}"));
             }
         }
@@ -373,7 +418,48 @@ fn step<F: Flavour>(st: &mut St<F>, op: &COp, stats: &mut Stats) -> Result<(), (
             }
             st.world.graph = Some(g);
         }
+        COp::TwinConnect { j, to_original, e } => {
+            let Some(k) = st.dup_keys.get(*j).copied() else { return Ok(()) };
+            if st.model.incident(k) != 0 || st.twin_keys().contains(&k) {
+                return Ok(());
+            }
+            let dup = st.dups[*j].clone();
+            let orig = st.world.nodes[k].clone();
+            if *to_original {
+                F::connect(&dup, &orig, crate::payload::EVal::new(*e));
+            } else {
+                F::connect(&orig, &dup, crate::payload::EVal::new(*e));
+            }
+            st.twin.insert(*j, (*to_original, *e));
+            stats.inc("probe_edge_between_two_node_objects_with_the_same_key");
+        }
+        COp::TwinIsolate { j, on_dup } => {
+            let Some(k) = st.dup_keys.get(*j).copied() else { return Ok(()) };
+            if !st.twin.contains_key(j) {
+                return Ok(());
+            }
+            let dup = st.dups[*j].clone();
+            let orig = st.world.nodes[k].clone();
+            F::isolate(if *on_dup { &dup } else { &orig });
+            st.twin.remove(j);
+            for (name, node) in [("the second node object", &dup), ("the original", &orig)] {
+                let (o, i) = World::<F>::lists_of(node);
+                if !o.is_empty() || !i.is_empty() {
+                    return fail(
+                        "twin-isolate",
+                        format!("after isolate() on one of two node objects with key {k} joined by an edge, {name} still lists {o:?} / {i:?}"),
+                    );
+                }
+            }
+        }
         COp::Edge(op) => {
+            // a node that currently carries a twin edge is left alone (lookups by key would be
+            // ambiguous in the library itself)
+            let tk = st.twin_keys();
+            if !tk.is_empty() && tk.iter().any(|k| gen::remap_op(op, *k).is_none()) {
+                stats.inc("edge_ops_skipped_node_carries_twin_edge");
+                return Ok(());
+            }
             // through the container's own handles when the member is the original node
             let mut op = op.clone();
             let u = op.subject();
@@ -392,7 +478,7 @@ fn step<F: Flavour>(st: &mut St<F>, op: &COp, stats: &mut Stats) -> Result<(), (
                 if matches!(op.prov(), Prov::Get | Prov::Index) {
                     stats.inc("probe_mutation_through_container_handle");
                 }
-                if let Err(m) = st.world.compare_with(&st.model) {
+                if let Err(m) = st.world.compare_with_skipping(&st.model, &st.twin_keys()) {
                     return fail("handle-identity", format!("after {op:?}: change not visible through the other handles: {m}"));
                 }
             }
@@ -426,6 +512,8 @@ fn run<F: Flavour>(sc: &ContSc, stats: &mut Stats) -> Option<(Violation, usize)>
         dups,
         members: BTreeMap::new(),
         model,
+        twin: BTreeMap::new(),
+        dup_keys: sc.dup_keys.clone(),
     };
     let mut out = None;
     for (i, op) in sc.ops.iter().enumerate() {
@@ -505,7 +593,15 @@ impl Engine for Container {
                     nmask: (rng.next_u64() & 0xffff) as u16,
                     emask: (rng.next_u64() & 0xffff) as u16,
                 }),
-                72..=74 => COp::Rebuild { hash_seed: rng.next_u64(), order_seed: rng.next_u64() },
+                72..=73 => COp::Rebuild { hash_seed: rng.next_u64(), order_seed: rng.next_u64() },
+                74 => {
+                    if rng.coin() {
+                        next_edge += 1;
+                        COp::TwinConnect { j: rng.below(dup_keys.len()), to_original: rng.coin(), e: next_edge }
+                    } else {
+                        COp::TwinIsolate { j: rng.below(dup_keys.len()), on_dup: rng.coin() }
+                    }
+                }
                 _ => {
                     let op = gen::gen_op(rng, &m, &mut next_edge, &cfg);
                     m.step(&op);
